@@ -56,7 +56,7 @@ func ParseFinalRegistrySource(given string) (RegistrySourceFinal, error) {
 			addr = fmt.Sprintf("%s//%s", addr, matches[4])
 		}
 	}
-	version, err := versions.ParseVersion(ver)
+	version, err := parseVersion(ver)
 	if err != nil {
 		return RegistrySourceFinal{}, fmt.Errorf("invalid version: %w", err)
 	}
@@ -65,6 +65,17 @@ func ParseFinalRegistrySource(given string) (RegistrySourceFinal, error) {
 		return RegistrySourceFinal{}, fmt.Errorf("invalid registry source: %w", err)
 	}
 	return regSrc.Versioned(version), nil
+}
+
+// parseVersion is versions.ParseVersion, except that a number too large for
+// a uint64 is reported as an error: versions.ParseVersion panics for those.
+func parseVersion(s string) (v versions.Version, err error) {
+	defer func() {
+		if r := recover(); r != nil {
+			v, err = versions.Unspecified, fmt.Errorf("version number out of range")
+		}
+	}()
+	return versions.ParseVersion(s)
 }
 
 // Unversioned returns the address of the registry package that this final
